@@ -136,6 +136,39 @@ prop('C22', level='model_checking',
 
 
 
+
+# ---- C22: token tuples for the opts_setup instances (indices into MENU of harness/h_main.c)
+OPT_MENU = ['-d', '-z', '-c', '-t', '-k', '-f', '-u', '-1', '-5', '-9', '-q', '-s', '-v', '-dc', '-zk', '-td', '-cz',
+            '--decompress', '--compress', '--stdout', '--test', '--keep', '--force', '--sequential', '--fast', '--best', '--small',
+            '--quiet', '--repetitive-fast', '--repetitive-best', '--exponential', '--verbose', '--', 'file', 'x.bz2']
+OPTS_QUICK = 48
+
+
+def opts_tuples():
+    """Deterministic greedy cover: every ordered pair (x before y) of the mode-affecting tokens appears in some tuple with x in an
+    earlier slot than y, and every other token appears at least once in an environment slot and once on the command line."""
+    import itertools, random
+    rnd = random.Random(20260922)
+    core = [0, 1, 2, 3, 13, 14, 15, 16, 17, 18, 19, 20, 32, 33]          # -d -z -c -t clusters long forms -- file
+    rest = [i for i in range(len(OPT_MENU)) if i not in core]
+    need = set(itertools.product(core, core))
+    tuples = []
+    while need:
+        best, bestc = None, -1
+        for _ in range(200):
+            t = [rnd.choice(core) for _ in range(5)]
+            c = len({(t[i], t[j]) for i in range(5) for j in range(i + 1, 5)} & need)
+            if c > bestc:
+                best, bestc = t, c
+        tuples.append(tuple(best))
+        need -= {(best[i], best[j]) for i in range(5) for j in range(i + 1, 5)}
+    # the remaining (non order-sensitive) tokens: once in an env slot, once in argv, next to mode tokens
+    for k in range(0, len(rest), 2):
+        r1 = rest[k]; r2 = rest[(k + 1) % len(rest)]
+        tuples.append((r1, 0, r2, 3, 33))
+        tuples.append((1, r2, 2, r1, r2))
+    return tuples
+
 def all_obligations():
     obs = []
     A = obs.append
@@ -336,16 +369,32 @@ def all_obligations():
          flags=['--unwind', '6', '--unwinding-assertions'],
          expect=['a fatal reporter prints a diagnostic unless', 'EPIPE/EFBIG diagnostics are suppressed', 'failfx never returns'],
          canaries=['CANARY fatal reporter reaches bailout'], replayable=False, assumed=FS))
-    for menu, mname, unw in ((0, 'short', '8'), (1, 'long', '20')):
-      A(Ob(name='main.opts_setup.' + mname, props=['C22'], kind='bounded', defines={'OPTS_MENU': str(menu)},
-         bound='<= 1 token in each of LBZIP2/BZIP2/BZIP and <= 2 command-line tokens, each a symbolic choice from the documented ' + mname +
-               ' spellings (incl. clusters / ignored options), "--" and operands; 7 invocation names; options with arguments (-n/-m) and -h/-V excluded',
-         harness='h_main.c', entry='h_opts_setup',
-         what='opts_setup() result (decompress, outmode, level, -f -k -u, operand list) equals a model of the documented rules: invocation-name '
-              'defaults, LBZIP2 then BZIP2 then BZIP tokens before the command line, last of -d/-z wins and cancels -t, -t implies -d, -c/-t conflict fails',
-         functions=['opts_setup', 'opts_outmode', 'opts_decompress'], flags=['--unwind', unw, '--unwinding-assertions'], timeout=1500,
-         expect=['mode: invocation name', 'operands: exactly the non-option tokens', 'opts_setup fails only where'], replayable=True,
-         assumed=FS + ['getenv/strtok: harness stubs (one separator-free token per variable)', 'sysconf/isatty: arbitrary results']))
+    OPTS_WHAT = ('opts_setup() result (decompress, outmode, level, -f -k -u, operand list) equals a model of the documented rules: invocation-name '
+                 'defaults, LBZIP2 then BZIP2 then BZIP tokens before the command line, last of -d/-z wins and cancels -t, -t implies -d, -c/-t conflict fails')
+    OPTS_ASSUMED = FS + ['getenv/strtok: harness stubs (one separator-free token per variable)', 'sysconf: arbitrary result; isatty: not a terminal',
+                         'malloc never fails (--no-malloc-may-fail): the out-of-memory exit is not part of C22']
+    OPTS_FLAGS = ['--no-malloc-may-fail', '--unwind', '7', '--unwindset', 'strcmp.0:19,strcpy.0:19', '--unwinding-assertions']
+    OPTS_EXCL = 'one separator-free token per variable; options with arguments (-n/-m) and -h/-V excluded; stdin/stdout not terminals'
+
+    def opts_ob(name, tup, extra, bound, tier):
+        d = {'OPT_E0': str(tup[0]), 'OPT_E1': str(tup[1]), 'OPT_E2': str(tup[2]), 'OPT_A1': str(tup[3]), 'OPT_A2': str(tup[4])}
+        d.update(extra)
+        A(Ob(name=name, props=['C22'], kind='bounded', tier=tier, defines=d, bound=bound + '; ' + OPTS_EXCL, harness='h_main.c', entry='h_opts_setup',
+             what=OPTS_WHAT, functions=['opts_setup', 'opts_outmode', 'opts_decompress'], flags=OPTS_FLAGS, checks=[], timeout=900,
+             expect=['mode: invocation name', 'operands: exactly the non-option tokens', 'opts_setup fails only where'], replayable=True, assumed=OPTS_ASSUMED))
+    # (a) transition instances: one token (argv[1]) from EVERY prior option state
+    for i, t in enumerate(OPT_MENU):
+        opts_ob(f'main.opts_setup.step.{i:02d}', (0, 0, 0, i, 0), {'OPT_PRESENT': '8', 'OPT_SYMSTATE': ''},
+                f'single command-line token {t} applied to every prior option state (mode, output mode, level, -f -k -u)', 'quick')
+        opts_ob(f'main.opts_setup.envstep.{i:02d}', (0, i, 0, 0, 0), {'OPT_PRESENT': '2', 'OPT_SYMSTATE': ''},
+                f'single BZIP2 token {t} applied to every prior option state', 'quick')
+    # (b) invocation names alone
+    opts_ob('main.opts_setup.names', (0, 0, 0, 0, 0), {'OPT_PRESENT': '0'}, 'no tokens, all 7 invocation names', 'quick')
+    # (c) order/composition: all five tokens present, 7 invocation names; (d) the same tuples with every sub-selection (thorough)
+    for k, tup in enumerate(opts_tuples()):
+        names = tuple(OPT_MENU[i] for i in tup)
+        opts_ob(f'main.opts_setup.seq.{k:02d}', tup, {'OPT_PRESENT': '31'}, 'token sequence LBZIP2=%s BZIP2=%s BZIP=%s argv=%s %s, 7 invocation names' % names, 'quick')
+        opts_ob(f'main.opts_setup.sub.{k:02d}', tup, {}, 'token tuple LBZIP2=%s BZIP2=%s BZIP=%s argv=%s %s: every sub-selection of the five tokens x 7 invocation names' % names, 'thorough')
     # ---------------- signals.c
     SG = ['POSIX signal calls (pthread_sigmask/sigaction/sigpending/kill/sigsuspend) replaced by a ghost signal-state model; '
           'signal delivery is atomic with respect to that state', 'cleanup() stub (proved separately in main.cleanup)', '_exit/pthread_exit are _Noreturn']
